@@ -21,7 +21,7 @@
 //                                       close callback sends a text), rCg (inbound close while ANOTHER thread sends a text from
 //                                       inside the close callback window), D (client disconnect())
 //   E                                   end of the execution                                          -> {"e":"Reset"}
-//   <data>  = parts joined by '+': hex string | r<N>x<HH> (N bytes HH) | '-' (empty)
+//   <data>  = parts joined by '+': hex string | r<N>x<HH> (N bytes HH) | R<N>x<hex> (the hex string N times) | '-' (empty)
 //   <segs>  = comma separated sizes (last segment takes the rest) | b (byte by byte) | c<N> (chunks of N bytes) | w (whole)
 // Payload bytes are never logged: messages and frames are logged as (length, h) with h the polynomial hash
 //   h(s) = fold (h*263 + byte + 1) mod 32749, which the trace specification recombines from the per-frame facts.
